@@ -119,6 +119,13 @@ fstring_string_single_line = _compile(
 fstring_string_multi_line = _compile(
     r'(?:\{\{|\}\}|\\N\{' + unicode_character_name + r'\}|\\[^N{}]|\\(?=[{}])|[^{}\\])+'
 )
+# In raw f-strings a backslash does not start a named unicode escape (\N{...}).
+fstring_string_single_line_raw = _compile(
+    r'(?:\{\{|\}\}|\\(?:\r\n?|\n)|\\[^\r\n{}]|\\(?=[{}])|[^{}\r\n\\])+'
+)
+fstring_string_multi_line_raw = _compile(
+    r'(?:\{\{|\}\}|\\[^{}]|\\(?=[{}])|[^{}\\])+'
+)
 fstring_format_spec_single_line = _compile(r'(?:\\(?:\r\n?|\n)|[^{}\r\n])+')
 fstring_format_spec_multi_line = _compile(r'[^{}]+')
 
@@ -253,8 +260,9 @@ class PythonToken(Token):
 
 
 class FStringNode:
-    def __init__(self, quote):
+    def __init__(self, quote, raw=False):
         self.quote = quote
+        self.raw = raw
         self.parentheses_count = 0
         self.previous_lines = ''
         self.last_string_start_pos: Any = None
@@ -310,7 +318,12 @@ def _find_fstring_string(endpats, fstring_stack, line, lnum, pos):
         else:
             regex = fstring_format_spec_single_line
     else:
-        if allow_multiline:
+        if tos.raw:
+            if allow_multiline:
+                regex = fstring_string_multi_line_raw
+            else:
+                regex = fstring_string_single_line_raw
+        elif allow_multiline:
             regex = fstring_string_multi_line
         else:
             regex = fstring_string_single_line
@@ -595,7 +608,7 @@ def tokenize_lines(
                 else:                                       # ordinary string
                     yield PythonToken(STRING, token, spos, prefix)
             elif token in fstring_pattern_map:  # The start of an fstring.
-                fstring_stack.append(FStringNode(fstring_pattern_map[token]))
+                fstring_stack.append(FStringNode(fstring_pattern_map[token], raw='r' in token.lower()))
                 yield PythonToken(FSTRING_START, token, spos, prefix)
             elif initial == '\\' and line[start:] in ('\\\n', '\\\r\n', '\\\r'):  # continued stmt
                 additional_prefix += prefix + line[start:]
